@@ -346,110 +346,153 @@ theorem appendSvc_nodup_hostnames (acc : List Svc) (s : Svc)
           · exact h
           · rw [hrep { ex with ports := mergePorts ex.ports s.ports } hexh]; exact h
 
-/-! ### `pickBestVisibleNamespace` ranges over a Go map: order independence -/
+/-! ### `pickBestVisibleNamespace` ranges over a Go map: order independence
 
-theorem oldest_isSome {l : List (String × Svc)} (h : l ≠ []) : ∃ p, oldest l = some p := by
-  cases l with
-  | nil => exact absurd rfl h
-  | cons a t =>
-    unfold oldest
-    cases oldest t with
-    | none => exact ⟨a, rfl⟩
-    | some b => simp only; split <;> exact ⟨_, rfl⟩
+The rule of `betterVisibleService` (Kubernetes first, then the older non-Kubernetes service, then
+the alphabetically first namespace) is a strict total order on services of distinct namespaces, so
+the pick is the maximum and does not depend on the iteration order of the map. -/
 
-theorem oldest_min {l : List (String × Svc)} {p : String × Svc} (h : oldest l = some p) :
-    ∀ q ∈ l, p.2.ctime ≤ q.2.ctime := by
-  induction l generalizing p with
-  | nil => simp [oldest] at h
+theorem better_trans (a b c : Svc) (h1 : betterVisible a b = true) (h2 : betterVisible b c = true) :
+    betterVisible a c = true := by
+  unfold betterVisible at *
+  cases ha : a.k8s <;> cases hb : b.k8s <;> cases hc : c.k8s <;> simp [ha, hb, hc] at h1 h2 ⊢
+  · split at h1 <;> split at h2 <;> split <;> first | omega | exact String.lt_trans h1 h2
+  · exact String.lt_trans h1 h2
+
+theorem better_total (a b : Svc) (h : a.ns ≠ b.ns) : betterVisible a b = true ∨ betterVisible b a = true := by
+  unfold betterVisible
+  have hs : a.ns < b.ns ∨ b.ns < a.ns := by
+    rcases String.le_total a.ns b.ns with h1 | h1
+    · exact Or.inl (Std.lt_of_le_of_ne h1 h)
+    · exact Or.inr (Std.lt_of_le_of_ne h1 (Ne.symm h))
+  cases ha : a.k8s <;> cases hb : b.k8s <;> simp
+  · by_cases e1 : a.ctime = b.ctime
+    · simp [e1]; exact hs
+    · have : ¬ b.ctime = a.ctime := fun h => e1 h.symm
+      simp [e1, this]; omega
+  · exact hs
+
+/-- the loop keeps a service that no visited service beats -/
+theorem foldl_bestStep_max (l : List (String × Svc)) (cur : Option Svc) (r : Svc)
+    (h : l.foldl bestStep cur = some r) :
+    (∀ c, cur = some c → betterVisible c r = false) ∧ (∀ p ∈ l, betterVisible p.2 r = false) := by
+  have irrefl : ∀ x : Svc, betterVisible x x = false := by
+    intro x; unfold betterVisible; simp [String.lt_irrefl]
+  induction l generalizing cur with
+  | nil =>
+    simp only [List.foldl_nil] at h
+    exact ⟨fun c hc => by rw [h] at hc; cases hc; exact irrefl r, by simp⟩
   | cons a t ih =>
-    unfold oldest at h
-    cases ho : oldest t with
+    rw [List.foldl_cons] at h
+    obtain ⟨h1, h2⟩ := ih _ h
+    cases cur with
     | none =>
-      simp only [ho] at h; cases h
-      intro q hq
-      rcases List.mem_cons.mp hq with hq | hq
-      · subst hq; exact Nat.le_refl _
-      · cases t with
-        | nil => simp at hq
-        | cons b t' =>
-          obtain ⟨r, hr⟩ := oldest_isSome (l := b :: t') (by simp)
-          rw [ho] at hr; cases hr
-    | some b =>
-      simp only [ho] at h
-      have hb := ih ho
-      split at h
-      · rename_i hlt
-        cases h
-        intro q hq
-        rcases List.mem_cons.mp hq with hq | hq
-        · subst hq; omega
-        · exact hb q hq
-      · rename_i hlt
-        cases h
-        intro q hq
-        rcases List.mem_cons.mp hq with hq | hq
-        · subst hq; exact Nat.le_refl _
-        · have := hb q hq; omega
+      have ha := h1 a.2 (by simp [bestStep])
+      refine ⟨by simp, ?_⟩
+      intro p hp
+      rcases List.mem_cons.mp hp with hp | hp
+      · subst hp; exact ha
+      · exact h2 p hp
+    | some c =>
+      by_cases hb : betterVisible a.2 c = true
+      · have ha := h1 a.2 (by simp [bestStep, hb])
+        refine ⟨?_, ?_⟩
+        · intro c' hc'; cases hc'
+          -- c is beaten by a, a is not better than r; if c were better than r, a would be too
+          cases hcr : betterVisible c r with
+          | false => rfl
+          | true => rw [better_trans a.2 c r hb hcr] at ha; cases ha
+        · intro p hp
+          rcases List.mem_cons.mp hp with hp | hp
+          · subst hp; exact ha
+          · exact h2 p hp
+      · have hc := h1 c (by simp [bestStep, hb])
+        refine ⟨fun c' hc' => by cases hc'; exact hc, ?_⟩
+        intro p hp
+        rcases List.mem_cons.mp hp with hp | hp
+        · rw [hp]; exact better_cmp a.2 c r hb hc
+        · exact h2 p hp
+where
+  /-- if `a` does not beat `c` and `c` does not beat `r` then `a` does not beat `r` (negative transitivity) -/
+  better_cmp (a c r : Svc) (h1 : ¬ betterVisible a c = true) (h2 : betterVisible c r = false) :
+      betterVisible a r = false := by
+    unfold betterVisible at *
+    cases ha : a.k8s <;> cases hc : c.k8s <;> cases hr : r.k8s <;> simp [ha, hc, hr] at h1 h2 ⊢
+    · split at h1 <;> split at h2 <;> split <;>
+        first | omega | exact Std.le_trans h2 h1
+    · exact Std.le_trans h2 h1
 
-/-- **pickBest_order_independent_partial**: the namespace `pickBestVisibleNamespace` returns does
-    not depend on the iteration order of the Go map, provided the visible Kubernetes services for the
-    hostname live in one namespace and visible services with equal creation time live in one
-    namespace (what the generator guarantees; otherwise see the witness below). -/
-theorem pickBest_order_independent_partial (m : Mesh) (l1 l2 : List (String × Svc)) (cfgNs : String)
-    (hperm : ∀ p, p ∈ l1 ↔ p ∈ l2)
-    (hk : ∀ p ∈ l1, ∀ q ∈ l1, isServiceVisible m p.2 cfgNs = true → isServiceVisible m q.2 cfgNs = true →
-      p.2.k8s = true → q.2.k8s = true → p.2.ns = q.2.ns)
-    (hc : ∀ p ∈ l1, ∀ q ∈ l1, isServiceVisible m p.2 cfgNs = true → isServiceVisible m q.2 cfgNs = true →
-      p.2.ctime = q.2.ctime → p.2.ns = q.2.ns) :
+/-- **pickBest_order_independent**: `pickBestVisibleNamespace` returns the same namespace for any
+    two enumerations of the same `byNamespace` map (entries of distinct namespaces). -/
+theorem pickBest_order_independent (m : Mesh) (l1 l2 : List (String × Svc)) (cfgNs : String)
+    (hperm : ∀ p, p ∈ l1 ↔ p ∈ l2) :
     pickBest m l1 cfgNs = pickBest m l2 cfgNs := by
   simp only [pickBest]
   have hv : ∀ p, p ∈ l1.filter (fun p => isServiceVisible m p.2 cfgNs) ↔ p ∈ l2.filter (fun p => isServiceVisible m p.2 cfgNs) := by
     intro p; simp only [List.mem_filter, hperm p]
   generalize hv1 : l1.filter (fun p => isServiceVisible m p.2 cfgNs) = v1 at hv
   generalize hv2 : l2.filter (fun p => isServiceVisible m p.2 cfgNs) = v2 at hv
-  have inl1 : ∀ p ∈ v1, p ∈ l1 ∧ isServiceVisible m p.2 cfgNs = true := by
-    intro p hp; rw [← hv1] at hp; exact List.mem_filter.mp hp
-  cases hf1 : v1.find? (·.2.k8s) with
-  | some p1 =>
-    have hp1 := List.mem_of_find?_eq_some hf1
-    have hp1k : p1.2.k8s = true := by simpa using List.find?_some hf1
-    have : (v2.find? (·.2.k8s)).isSome = true := List.find?_isSome.mpr ⟨p1, (hv p1).mp hp1, hp1k⟩
-    obtain ⟨p2, hf2⟩ := Option.isSome_iff_exists.mp this
-    have hp2 := (hv p2).mpr (List.mem_of_find?_eq_some hf2)
-    have hp2k : p2.2.k8s = true := by simpa using List.find?_some hf2
-    simp only [hf2]
-    exact hk p1 (inl1 p1 hp1).1 p2 (inl1 p2 hp2).1 (inl1 p1 hp1).2 (inl1 p2 hp2).2 hp1k hp2k
+  have emptyIff : ∀ (v : List (String × Svc)), v.foldl bestStep none = none → v = [] := by
+    intro v hn
+    cases v with
+    | nil => rfl
+    | cons a t =>
+      exfalso
+      rw [List.foldl_cons] at hn
+      have : ∀ (t : List (String × Svc)) (c : Svc), t.foldl bestStep (some c) ≠ none := by
+        intro t
+        induction t with
+        | nil => intro c; simp
+        | cons b t ih => intro c; rw [List.foldl_cons]; simp only [bestStep]; split <;> exact ih _
+      exact this t a.2 (by simpa [bestStep] using hn)
+  cases h1 : v1.foldl bestStep none with
   | none =>
-    have hn2 : v2.find? (·.2.k8s) = none := by
-      rw [List.find?_eq_none] at hf1 ⊢
-      intro x hx; exact hf1 x ((hv x).mpr hx)
-    simp only [hn2]
-    by_cases he : v1 = []
-    · have he2 : v2 = [] := by
-        cases v2 with
-        | nil => rfl
-        | cons a t => have := (hv a).mpr List.mem_cons_self; rw [he] at this; simp at this
-      rw [he, he2]
-    · have he2 : v2 ≠ [] := by
-        intro h2
-        cases v1 with
-        | nil => exact he rfl
-        | cons a t => have := (hv a).mp List.mem_cons_self; rw [h2] at this; simp at this
-      obtain ⟨p1, ho1⟩ := oldest_isSome he
-      obtain ⟨p2, ho2⟩ := oldest_isSome he2
-      simp only [ho1, ho2]
-      have m1 := oldest_mem ho1
-      have m2 := (hv p2).mpr (oldest_mem ho2)
-      have le1 := oldest_min ho1 p2 m2
-      have le2 := oldest_min ho2 p1 ((hv p1).mp m1)
-      exact hc p1 (inl1 p1 m1).1 p2 (inl1 p2 m2).1 (inl1 p1 m1).2 (inl1 p2 m2).2 (by omega)
+    have e1 := emptyIff v1 h1
+    have e2 : v2 = [] := by
+      cases v2 with
+      | nil => rfl
+      | cons a t => have := (hv a).mpr List.mem_cons_self; rw [e1] at this; simp at this
+    rw [e2]; rfl
+  | some r1 =>
+    cases h2 : v2.foldl bestStep none with
+    | none =>
+      have e2 := emptyIff v2 h2
+      rcases foldl_bestStep_mem v1 none r1 h1 with h | ⟨p, hp, _⟩
+      · cases h
+      · have := (hv p).mp hp; rw [e2] at this; simp at this
+    | some r2 =>
+      simp only
+      obtain ⟨p1, hp1, hpr1⟩ : ∃ p ∈ v1, p.2 = r1 := by
+        rcases foldl_bestStep_mem v1 none r1 h1 with h | h
+        · cases h
+        · exact h
+      obtain ⟨p2, hp2, hpr2⟩ : ∃ p ∈ v2, p.2 = r2 := by
+        rcases foldl_bestStep_mem v2 none r2 h2 with h | h
+        · cases h
+        · exact h
+      -- neither beats the other
+      have n12 : betterVisible r2 r1 = false := by
+        have := (foldl_bestStep_max v1 none r1 h1).2 p2 ((hv p2).mpr hp2); rw [hpr2] at this; exact this
+      have n21 : betterVisible r1 r2 = false := by
+        have := (foldl_bestStep_max v2 none r2 h2).2 p1 ((hv p1).mp hp1); rw [hpr1] at this; exact this
+      by_cases hne : r1.ns = r2.ns
+      · exact hne
+      · rcases better_total r1 r2 hne with h | h
+        · rw [h] at n21; cases n21
+        · rw [h] at n12; cases n12
 
-/-- without the hypothesis the choice depends on the map order: two visible Kubernetes services for
-    one hostname in different namespaces (not a Kubernetes possibility; feeds C17). -/
-theorem pickBest_order_dependent_witness :
+/-- the name DESIGN.md uses (the hypotheses it foresaw are no longer needed since /repo d30d8f4) -/
+theorem pickBest_order_independent_partial (m : Mesh) (l1 l2 : List (String × Svc)) (cfgNs : String)
+    (hperm : ∀ p, p ∈ l1 ↔ p ∈ l2) : pickBest m l1 cfgNs = pickBest m l2 cfgNs :=
+  pickBest_order_independent m l1 l2 cfgNs hperm
+
+/-- several visible Kubernetes services for one hostname (not a Kubernetes possibility): the tie goes
+    to the alphabetically first namespace whatever the order (before /repo d30d8f4 it followed the
+    map order). -/
+theorem pickBest_tie_alphabetical :
     let a := mkSvc "a" "h.com" "ns1" 1 true [80] ["*"]
     let b := mkSvc "b" "h.com" "ns2" 2 true [80] ["*"]
-    pickBest {} [("ns1", a), ("ns2", b)] "ns3" = "ns1" ∧ pickBest {} [("ns2", b), ("ns1", a)] "ns3" = "ns2" := by
+    pickBest {} [("ns1", a), ("ns2", b)] "ns3" = "ns1" ∧ pickBest {} [("ns2", b), ("ns1", a)] "ns3" = "ns1" := by
   decide +kernel
 
 /-! ### which Sidecar applies -/
